@@ -165,11 +165,6 @@ fn ren_onst_nrb(
         .get(&Carrier::ELECTRICIDAD)
         .map(|cr| cr.we.del_onst.ren)
         .unwrap_or(0.0);
-    // 3. Renewable energy from cogeneration
-    let ren_el_cgn = balance_cr
-        .get(&Carrier::ELECTRICIDAD)
-        .map(|cr| cr.we.del_cgn.ren)
-        .unwrap_or(0.0);
     // 3. Renewable resources used for exported electricity (step A)
     // These have to be substracted depending on k_exp value, but only the part
     // that has been accounted for in each perimeter:
@@ -212,8 +207,9 @@ fn ren_onst_nrb(
         // Onsite
         ren_onst_cr + ren_el_onst - (1.0 - k_exp) * (ren_el_exp_a_onst + ren_el_exp_a_cgn_onst),
         // Nearby
-        ren_nrb_cr + ren_el_onst + ren_el_cgn
-            - (1.0 - k_exp) * (ren_el_exp_a_onst + ren_el_exp_a_cgn_nrb),
+        // (the renewable part of grid electricity fed to a cogenerator is distant, not nearby: the inputs of
+        // cogeneration from nearby carriers are already in ren_nrb_cr)
+        ren_nrb_cr + ren_el_onst - (1.0 - k_exp) * (ren_el_exp_a_onst + ren_el_exp_a_cgn_nrb),
     ))
 }
 
